@@ -38,7 +38,7 @@ FUNCTIONS = [
 STUBS = ["none: the whole of pyxel.run_mode runs unmodified (real xarray extraction per step); only flags and argument values are symbolic",
          "an always-enabled helper model (vxprobes.init_buckets, first in scene_generation) initialises photon/signal/image so that the real exposure "
          "loop can build its result when every probed model is disabled"]
-OUTSIDE = ["YAML text parsing (PyYAML); calibration mode (pygmo worker threads); parallel (dask) observation"]
+OUTSIDE = ["YAML text parsing (PyYAML) is exercised by C09's pyxel.run witness only", "pygmo's evolution loop and dask graph scheduling: the functions they call per candidate / per cell are driven directly"]
 ASSUMPTIONS = []
 EXPLANATION = "the canonical order is written out in the harness from the statement; expected trace = per step, per canonical group, each listed model whose flag is true on this path"
 CANON = ("scene_generation", "photon_collection", "phasing", "charge_generation", "charge_collection", "charge_transfer",
